@@ -2,7 +2,7 @@ HOOKS = {
     'guard': 'reinterpretcat_vrp_verif',
     'enable': 'harness/.cargo/config.toml passes --cfg reinterpretcat_vrp_verif (and --check-cfg) to every crate of the harness build, including the path dependencies under /repo',
     'baseline_off_cmd': 'cd /repo && cargo nextest run --workspace --no-fail-fast --tool-config-file pb:/w/lib/nextest.toml --profile pb --test-threads 8 --offline || cargo test --workspace --no-fail-fast --offline',
-    'source_commits': [],
+    'source_commits': ['f301bba'],
     'add_only': True,
 }
 ENGINES = [
@@ -11,4 +11,33 @@ ENGINES = [
 ]
 NOTES = 'Model-based verification with an explicit TLA+ specification; see DESIGN.md. ./check <id> --tier quick|thorough; exit 0/1/2 (2 = tool error).'
 NOT_APPLICABLE = {}
-CHECKS = {}
+_ORACLE_NOTE = ('trusted: TLC evaluates spec/VrpModel.tla as written; vlib/project.py is a mechanical projection (index / id lookups, '
+                'RFC3339 -> integer seconds); generated problems are valid per the documentation (integer stratum: index locations, explicit '
+                'integer matrices). Not covered yet: required breaks, recharge, vicinity clustering, time-dependent matrices, coordinates.')
+CHECKS = {
+    'C01': dict(category='model_checking', design_ref='DESIGN.md section 6 C01', technique='TLA+ oracle (VrpModel!Feasible) on recorded solver runs, TLC',
+                text='Every returned solution of ~1500 (quick) / ~19000 (thorough) seeded solver runs over generated valid problems x solver configurations '
+                     '(populations, hyper-heuristics, operator sets, initial methods, termination, parallelism), plus relation problems derived from returned solutions, is judged by TLC '
+                     'against the feasibility definitions of spec/VrpModel.tla (time windows, shift, capacity per reload interval, skills, limits, groups, compatibility, hard order, reachability, relations); '
+                     'each run re-checks that single-field corruptions of an accepted record are rejected (binding / vacuity guard).',
+                note=_ORACLE_NOTE),
+    'C02': dict(category='model_checking', design_ref='DESIGN.md section 6 C02', technique='TLA+ oracle (VrpModel!Partition) on recorded solver runs + exhaustive SolutionCtx model, TLC',
+                text='Same recorded runs as C01 judged against the partition definitions (every plan job exactly once in one tour or once unassigned with a reason, no foreign ids, tours name existing vehicle shifts, '
+                     'serve a job, no vehicle shift twice, breaks / reloads map injectively to the ones defined for that shift).',
+                note=_ORACLE_NOTE),
+    'C03': dict(category='model_checking', design_ref='DESIGN.md section 6 C03', technique='TLA+ replay (VrpModel!Stats) of recorded solutions, TLC',
+                text='Same recorded runs as C01: arrival / departure, per-stop load and distance, tour and overall statistics, cost and place tags are recomputed by the specification from matrices, '
+                     'vehicle costs and the visiting order and demanded equal (integer stratum, cost within 2 milli units).',
+                note=_ORACLE_NOTE),
+    'C04': dict(category='model_checking', design_ref='DESIGN.md section 6 C04', technique='trace validation of recorded operator histories against TraceSolutionCtx.tla + exhaustive TLC check of SolutionCtx.tla',
+                text='Seeded random histories (120 x 40 steps quick, 2500 x 120 thorough) over every shipped ruin (inside CompositeRuin), recreate, local operator, decompose / redistribute / infeasible / LKH / default composite; '
+                     'after every operator TLC checks Inv(pre) => Inv(post): one place per job, no duplicate entries, registry sync, tour job sets, multi jobs whole and ordered, all hard constraints of VrpModel on what is assigned, parent digest unchanged. '
+                     'The fine-grained container / registry / cache model SolutionCtx.tla is checked exhaustively.',
+                note='trusted: harness observation through public API and hook H1; operators use the unseeded default Random, so a violation is reproduced from the recorded event, not by re-execution. '
+                     'Micro-step trace validation (hook H3) is not built yet: the fine-grained model is bound to the code only at operator boundaries.'),
+    'C05': dict(category='model_checking', design_ref='DESIGN.md section 6 C05', technique='trace validation (cache digests before/after recomputation) + TLA+ replay of cached schedules + SolutionCtx cache protocol model, TLC',
+                text='In the same operator histories every handed-over state is compared with its recomputation from bare tours: digest of all cached route / solution state values (hook H1), fitness and total order, '
+                     'and the cached schedules / loads / totals are replayed by the specification. The cache protocol (stale bit, who refreshes what) is model-checked in SolutionCtx.tla.',
+                note='trusted: hook H1 renders the cached values of known plain types (others are counted as opaque); recomputation = clear + accept_route_state + accept_solution_state on a deep copy. '
+                     '"after every single insertion" is decided at model level only (AggFreshAfterInsertion witness); the insertion observer hook H2 is not built yet.'),
+}
